@@ -46,8 +46,10 @@ def headers_ctor_own_store(p: Program) -> List[Item]:
         for s_ in stores:
             v = s_.value
             if isinstance(v, ast.Name):
-                defs = [n for n in ast.walk(init.node) if isinstance(n, (ast.Assign, ast.AnnAssign)) and any(isinstance(t, ast.Name) and t.id == v.id for t in (n.targets if isinstance(n, ast.Assign) else [n.target]))]
-                if not defs or not all(isinstance(d.value, (ast.Dict, ast.DictComp)) or (isinstance(d.value, ast.Call) and isinstance(d.value.func, ast.Name) and d.value.func.id == "dict") for d in defs if d.value is not None):
+                # follow locals that are only ever bound by plain assignments (a helper spliced in leaves `ret = store`)
+                from ..common import defs_of
+                ds = [d for d in defs_of(init, v, depth=4) if not (isinstance(d, ast.Constant) and d.value is None)]
+                if not ds or not all(isinstance(d, (ast.Dict, ast.DictComp)) or (isinstance(d, ast.Call) and isinstance(d.func, ast.Name) and d.func.id == "dict") for d in ds):
                     fresh = False
             elif not (isinstance(v, (ast.Dict, ast.DictComp)) or (isinstance(v, ast.Call) and isinstance(v.func, ast.Name) and v.func.id == "dict")):
                 fresh = False
